@@ -38,7 +38,7 @@ fn has_imports(text: &str) -> bool {
 }
 
 /// the same tokens, one item per line, so that a diagnostic's line names the item it is about
-fn one_item_per_line(text: &str) -> String {
+pub fn one_item_per_line(text: &str) -> String {
     use quote::ToTokens;
     let Ok(file) = syn::parse_file(text) else { return text.to_string() };
     let mut out = String::new();
